@@ -24,6 +24,26 @@ func init() {
 				}
 			}
 			cs = append(cs, driver.Case{Harness: "verifH_c06_encode", Pkg: "sm2", Config: "purego", Params: P(), MaxUnwind: 200, TimeoutS: 1200})
+			signOv := sm2OverridesAbs()
+			signOv[driver.Module+"/sm2.encodeSignature"] = "verifModel_encodeSignature"
+			cs = append(cs, driver.Case{Harness: "verifH_c06_signspec", Pkg: "sm2", Config: "purego", Params: P(), Overrides: signOv, MaxUnwind: 400, TimeoutS: 2400, Portfolio: true, SoftBranch: true, SoftMs: 2500, QueryMs: 20000, MustReach: []string{"signed", "retried", "failed"}})
+			lz := [][2]int{{0, 0}, {1, 0}, {0, 32}, {32, 0}}
+			if tier != "quick" {
+				lz = append(lz, [2]int{31, 31}, [2]int{0, 1}, [2]int{2, 3}, [2]int{32, 32})
+			}
+			for _, z := range lz {
+				c := driver.Case{Harness: "verifH_c06_verifyspec", Pkg: "sm2", Config: "purego", Params: P("lzr", z[0], "lzs", z[1]), Overrides: sm2OverridesAbs(), MaxUnwind: 400, TimeoutS: 2400, Portfolio: true, SoftBranch: true, SoftMs: 2500, QueryMs: 20000}
+				if z[0] < 32 && z[1] < 32 {
+					c.MustReach = []string{"accepted"}
+				}
+				cs = append(cs, c)
+			}
+			for mod := 0; mod <= 1; mod++ {
+				cs = append(cs, driver.Case{Harness: "verifH_bigmod_cmp", Pkg: "internal/bigmod", Config: "purego", Params: P("mod", mod), Overrides: map[string]string{driver.Module + "/internal/bigmod.bitLen": "verifModel_bitLen"}, MaxUnwind: 400, TimeoutS: 1200, Portfolio: true})
+				for op := 0; op <= 1; op++ {
+					cs = append(cs, driver.Case{Harness: "verifH_bigmod_addsub", Pkg: "internal/bigmod", Config: "purego", Params: P("mod", mod, "op", op), Overrides: map[string]string{driver.Module + "/internal/bigmod.bitLen": "verifModel_bitLen"}, MaxUnwind: 400, TimeoutS: 1200, Portfolio: true})
+				}
+			}
 			return cs
 		},
 		Functions:   []string{"sm2.parseSignature", "sm2.signSM2EC, (*PrivateKey).inverseOfPrivateKeyPlus1 (history of calls on one key object)", "internal/bigmod (real limb code), sync.Once (sequential model)", "golang.org/x/crypto/cryptobyte (real code)"},
